@@ -91,6 +91,17 @@ def check_case(case, ctx, rec, pytrs):
             ctx.violation('flawed', case, "desc_is_flawed on a well-formed "
                           "description")
             return
+        if len(text) % 4 == 0:
+            # a description in one layout reads the same chunk by chunk
+            ctx.hit('boundary:PLSSDesc:segment')
+            ds = pytrs.PLSSDesc(text, config='segment')
+            gots = [[t.trs, t.desc] for t in ds.tracts]
+            if gots != exp or ds.e_flags:
+                ctx.violation('tracts-differ', case,
+                              f"with config 'segment': expected {exp} got "
+                              f"{gots} (e_flags {ds.e_flags})",
+                              dedup=f"segment|{layout}")
+                return
         k = len(text) % 4
         pretty = (d.pretty_desc() if k < 2 else
                   d.pretty_desc(word_sec='Section ') if k == 2 else
